@@ -15,11 +15,14 @@ use hx_common::{hex, Args, Recorder, Rng};
 #[derive(Default)]
 pub struct C08Oracle {
     borrow: String,
+    /// the framework closed the account (close_account succeeded) and nothing has rewritten its data since
+    closed: bool,
 }
 
 impl Oracle for C08Oracle {
     fn reset(&mut self) {
         self.borrow = "none".into();
+        self.closed = false;
     }
     fn observe(&mut self, rec: &mut Recorder, pre: Option<&Snap>, line: &str, ans: &str, post: Option<&Snap>) {
         if ans == "bad-op" {
@@ -32,6 +35,9 @@ impl Oracle for C08Oracle {
         if t[0] == "next" || t[0] == "setup" {
             self.borrow = "none".into();
         }
+        if t[0] == "setup" || t[0] == "poke" {
+            self.closed = false;
+        }
         let Some(pre) = pre else { return };
         let w = pre.w();
         let body = pre.kind.body_ok();
@@ -40,6 +46,10 @@ impl Oracle for C08Oracle {
         let detail = || format!("{line} -> {ans}; owner={} data={} writable={} disc={} borrow={}", hex(&pre.owner), hex(&pre.data), pre.writable, hex(&pre.disc), self.borrow);
         match t[0] {
             "validate" => {
+                if ans == "ok" && self.closed && w > 0 && pre.disc != vec![0xFFu8; w] {
+                    // "an account closed by the framework no longer validates as its type"
+                    rec.fail("closed_account_validates", &detail());
+                }
                 if ans == "panic" {
                     rec.fail("validate_panics", &detail());
                 } else if ans == "ok" && !admit {
@@ -83,6 +93,7 @@ impl Oracle for C08Oracle {
             "close" => {
                 if ans == "ok" {
                     let post = post.unwrap();
+                    self.closed = true;
                     if post.data != vec![0xFFu8; w] {
                         rec.fail("close_does_not_leave_marker", &detail());
                     }
